@@ -2056,3 +2056,39 @@ def store19(ctx) -> List[Ob]:
             out.append(bad("STORE-19", fn.qualname, key, where, f"'{A.unparse(st)[:40]}' additionally depends on {[t if p else 'not ' + t for t, p in other]}: with no successors given, a predecessor for which that fails is not connected to the new block"))
     return out
 
+
+@rule("STORE-20", 2, "where loop restructuring / header unification re-points one arc of a block (a subscript store into the copy of its successor list), the new target is a name drawn from the generator for this arc on every path - never a name carried over from an earlier arc or a placeholder")
+def store20(ctx) -> List[Ob]:
+    out: List[Ob] = []
+    from .name import _fresh
+
+    fns = []
+    f1 = ctx.prog.find_function("loop_restructure_helper")
+    if f1 is not None:
+        fns.append(f1)
+    f2 = ctx.prog.cls("SCFG").find_method("insert_block_and_control_blocks")
+    if f2 is not None:
+        fns.append(f2)
+    if not fns:
+        raise AnalysisError("loop_restructure_helper / insert_block_and_control_blocks not found")
+    n = 0
+    for fn in fns:
+        for st in A.walk_no_nested(fn.node):
+            if not (isinstance(st, ast.Assign) and len(st.targets) == 1 and isinstance(st.targets[0], ast.Subscript) and isinstance(st.targets[0].value, ast.Name) and isinstance(st.value, ast.Name)):
+                continue
+            L = st.targets[0].value.id
+            # the list is a copy of a block's successor tuple
+            ldefs = [d for d in ctx.cfg(fn).reaching_defs(st, L) if d.stmt is not None and isinstance(d.stmt, ast.Assign)]
+            if not ldefs or not all("jump_targets" in A.unparse(d.stmt.value) for d in ldefs):
+                continue
+            n += 1
+            key = "arc re-pointed to a name drawn for it: " + A.alpha_key(st)
+            v, deriv = _fresh(ctx, fn, st.value, st)
+            if v == "fresh":
+                out.append(ok("STORE-20", fn.qualname, key, ctx.where(fn, st), f"{st.value.id} comes from the name generator on every path"))
+            else:
+                out.append(bad("STORE-20", fn.qualname, key, ctx.where(fn, st), f"{st.value.id} is not a freshly drawn name on every path to this store ({(deriv or ['?'])[-1][:80]}): a second arc of the same block is sent to the assignment block of the first - its control value selects the first arc's target", deriv))
+    if n == 0:
+        out.append(unresolved("STORE-20", fns[0].qualname, "arc re-pointing stores", ctx.where(fns[0]), "no subscript store into a copy of a successor list found"))
+    return out
+
